@@ -134,6 +134,18 @@ func genC19(r *Rng, n int, tier string, emit func(Case)) {
 		files := J{"js/app.js": "INSIDE-app-js", "css/main.css": "INSIDE-main-css", "logo.png": "INSIDE-logo", "js/index.html": "INSIDE-index", "assets/nested.txt": "INSIDE-nested",
 			".hidden": "INSIDE-hidden", "a b": "INSIDE-space"}
 		dirs := []interface{}{"img", "js/empty", "assets/deep"}
+		// directories whose names look like files (version numbers, extensions), with content below them
+		dotted := []string{"vendor/jquery-3.6.0", "img.d", "v1.2", "fonts.bak", "app.js.map.d", "css/theme.v2"}
+		var dottedHere []string
+		for _, d := range dotted {
+			if rr.Chance(1, 2) {
+				dottedHere = append(dottedHere, d)
+				files[d+"/inner.txt"] = "INSIDE-dotted-" + d
+				if rr.Bool() {
+					files[d+"/LICENSE"] = "INSIDE-license"
+				}
+			}
+		}
 		outside := J{"secret.txt": "CANARY-root-secret", "frontend/secret.txt": "CANARY-frontend-secret", "frontend/dist.txt": "CANARY-dist-sibling", "frontend/distx/file": "CANARY-prefix-sibling"}
 		var p string
 		switch rr.Intn(6) {
@@ -142,6 +154,9 @@ func genC19(r *Rng, n int, tier string, emit func(Case)) {
 			p = "/assets/" + keys[rr.Intn(len(keys))]
 		case 1:
 			p = "/assets/" + []string{"img", "img/", "js", "js/", "", "js/empty", "assets", "assets/"}[rr.Intn(8)]
+			if len(dottedHere) > 0 && rr.Chance(2, 3) {
+				p = "/assets/" + dottedHere[rr.Intn(len(dottedHere))] + []string{"", "/", "/inner.txt", "/."}[rr.Intn(4)]
+			}
 		default:
 			k := rr.Range(1, 7)
 			var parts []string
